@@ -13,6 +13,11 @@ class Undecided(Exception):
     pass
 
 
+class Fault(Undecided):
+    """numpy itself raises on this construction for arrays of the evaluated rank (a shape entry that does not exist, an
+    impossible reshape, operands that do not broadcast)."""
+
+
 class SA:
     def __init__(self, shape, data):
         self.shape = tuple(shape)
@@ -39,7 +44,7 @@ def _broadcast(a, shape):
     pad = (1,) * (len(shape) - len(a.shape)) + a.shape
     for p, s in zip(pad, shape):
         if p != 1 and p != s:
-            raise Undecided('shapes %r and %r do not broadcast' % (a.shape, shape))
+            raise Fault('shapes %r and %r do not broadcast' % (a.shape, shape))
     src = SA(pad, a.data)
     return SA.build(shape, lambda idx: src.at(tuple(0 if p == 1 else i for i, p in zip(idx, pad))))
 
@@ -70,7 +75,7 @@ class SmallEval:
                     return base.shape[t[2][1]]
                 if -len(self.dims) <= t[2][1] < len(self.dims):
                     return self.dims[t[2][1]]
-                raise Undecided('shape[%d]' % t[2][1])
+                raise Fault('shape[%d] of a %d-dimensional array does not exist' % (t[2][1], len(self.dims)))
             b = self.ev(t[1])
             if isinstance(b, tuple):
                 i = self.ev(t[2])
@@ -143,6 +148,10 @@ class SmallEval:
                     return len(v)
             if name == 'numpy.tile' and len(t[2]) == 2:
                 a, reps = self.ev(t[2][0]), self.ev(t[2][1])
+                if isinstance(reps, SA):
+                    reps = tuple(reps.data)          # an array of repetition counts
+                if isinstance(a, tuple):
+                    a = SA((len(a),), list(a))       # np.tile of a tuple treats it as a 1-D array
                 reps = (reps,) if isinstance(reps, int) else tuple(reps)
                 if isinstance(a, SA) and all(isinstance(r, int) for r in reps):
                     nd = max(len(a.shape), len(reps))
@@ -207,8 +216,10 @@ class SmallEval:
         for d in dims:
             if d != -1:
                 known *= d
+        if any(d < -1 for d in dims):
+            raise Fault('reshape(%s): negative dimensions other than -1 are not allowed' % ', '.join(map(str, dims)))
         if dims.count(-1) > 1 or known == 0 or n % known:
-            raise Undecided('cannot reshape %d elements to %r' % (n, dims))
+            raise Fault('cannot reshape %d elements to %r' % (n, dims))
         sh = tuple(n // known if d == -1 else d for d in dims)
         return SA(sh, b.data)
 
